@@ -173,3 +173,8 @@ def run(ctx):
     pool.ob_phases(ctx, 2)      # "returned in the tick it completes or fails": whatever can end a container runs before that tick's collection
     check_admission(ctx, 3)
     check_init(ctx, 4)
+    # "returned in the tick it finishes suspending": the release test looks at a count-down that must have advanced in this very tick, once,
+    # before the test (C10#3) — a write-out advanced elsewhere can pass 0 without ever being seen at 0
+    from . import c10
+    from .common import Renumber
+    c10.check_duration(Renumber(ctx, {3: 2, 6: 2}), 3)
